@@ -96,6 +96,8 @@ func ruleC20(c *Check) {
 	c.coinsSubSites(fs)
 	// ... which holds because every earning is added to the provider's record and to its owner's total alike
 	c.earnRules("C20")
+	// ... and the refund of a fee cannot fail for a fee that was never escrowed: a fee is recorded only without super mode
+	c.pricingIdentity("C20.3")
 	// the pricing indexed while a request is built exists: requests are built only for the providers the filter admitted
 	// (providers with a stored binding, whose pricing is stored with it), never for the consumer's raw list
 	c.newBatchRules("C20.3", map[string]bool{"list-vs-amount": true, "issue-after-pause": true, "obligation-without-credit": true})
